@@ -21,7 +21,7 @@ struct Gen {
         for (size_t d = 0; d < R; d++) {
             long n = A.shape[d]; int k = with_units ? (int)r.u(2) : (int)r.weighted({3, 3, 3, 2});
             if (k == 0) { std::string u = r.pick(su); SampledDimension sd = A.a.appendSampledDimension(0.25 + r.real(), "time", u); if (r.chance(0.4)) sd.offset((double)r.range(-3, 3)); A.units.push_back(u); }
-            else if (k == 1) { std::vector<double> t; double x = r.real(); for (long i = 0; i < n; i++) { t.push_back(x); x += 0.5 + r.real(); } std::string u = r.pick(ru); A.a.appendRangeDimension(t, "volt", u); A.units.push_back(u); }
+            else if (k == 1) { std::vector<double> t; double x = r.real(); for (long i = 0; i < n; i++) { t.push_back(x); x += r.chance(0.12) ? 0.0 : 0.5 + r.real(); /* equal neighbours are sorted too (the tick setter and is_sorted accept them) */ } std::string u = r.pick(ru); A.a.appendRangeDimension(t, "volt", u); A.units.push_back(u); }
             else if (k == 2) { std::vector<std::string> l; if (r.chance(0.6)) for (long i = 0; i < n; i++) l.push_back("l" + str(i)); A.a.appendSetDimension(l); A.units.push_back(""); A.all_units = false; }
             else { DataFrame df = b.createDataFrame(nm("frame"), "nix.frame", {{"name", "", DataType::String}, {"v", "mV", DataType::Double}}); df.rows((ndsize_t)n); if (r.chance(0.5)) A.a.appendDataFrameDimension(df); else A.a.appendDataFrameDimension(df, 0u); A.units.push_back(""); A.all_units = false; }
             A.kinds.push_back(k);
@@ -65,7 +65,9 @@ struct Gen {
         if (hard) {
             int k = (int)r.u(9);
             switch (k) {
-            case 0: { Arr &A = arrays[r.u(arrays.size())]; c.op("breach dimension-count | rank " + str(A.shape.size())); if (r.chance(0.5) || A.shape.size() == 1) A.a.appendSetDimension(); else { /* one descriptor too few */ std::vector<int> ks = A.kinds; A.a.deleteDimensions(); A.a.appendSetDimension(); A.kinds.assign(1, 2); A.all_units = false; } out.push_back({"dimension-count", A.a.id(), true, false, nullptr}); return true; }
+            case 0: { Arr &A = arrays[r.u(arrays.size())]; c.op("breach dimension-count | rank " + str(A.shape.size())); bool referenced = false; for (auto &tg : tags) for (auto &ref : tg.references()) if (ref.id() == A.a.id()) referenced = true; for (auto &tg : mtags) for (auto &ref : tg.references()) if (ref.id() == A.a.id()) referenced = true;
+                for (auto &o : out) if (o.entity_id == A.a.id() || o.name.find("/" + A.a.name() + "/") != std::string::npos) referenced = true;   // another breach already sits on this array's descriptors
+                if (r.chance(0.5) || A.shape.size() == 1 || referenced) A.a.appendSetDimension(); else {   /* (removing the descriptors of a referenced array would change what the tag-unit rule can see) */ /* one descriptor too few */ std::vector<int> ks = A.kinds; A.a.deleteDimensions(); A.a.appendSetDimension(); A.kinds.assign(1, 2); A.all_units = false; } out.push_back({"dimension-count", A.a.id(), true, false, nullptr}); return true; }
             case 1: { for (size_t t = 0; t < 8; t++) { Arr &A = arrays[r.u(arrays.size())]; if (A.a.dimensionCount() != A.shape.size()) continue; for (size_t d = 0; d < A.kinds.size(); d++) if (A.kinds[d] == 1 && r.chance(0.6)) { RangeDimension rd = A.a.getDimension(d + 1).asRangeDimension(); std::vector<double> tk = rd.ticks(); tk.push_back(tk.back() + 1.0); if (r.chance(0.5)) tk.push_back(tk.back() + 1.0); c.op("breach tick-count | dim " + str(d + 1) + " of " + str(A.kinds.size())); rd.ticks(tk); out.push_back({"tick-count/dim" + str(d + 1) + "of" + str(A.kinds.size()), A.a.id(), true, false, nullptr}); return true; } } return false; }
             case 2: { for (size_t t = 0; t < 8; t++) { Arr &A = arrays[r.u(arrays.size())]; if (A.a.dimensionCount() != A.shape.size()) continue; for (size_t d = 0; d < A.kinds.size(); d++) if (A.kinds[d] == 2 && r.chance(0.6)) { SetDimension sd = A.a.getDimension(d + 1).asSetDimension(); std::vector<std::string> l; for (long i = 0; i < A.shape[d] + 1; i++) l.push_back("x" + str(i)); c.op("breach label-count | dim " + str(d + 1) + " of " + str(A.kinds.size())); sd.labels(l); out.push_back({"label-count/dim" + str(d + 1) + "of" + str(A.kinds.size()), A.a.id(), true, false, nullptr}); return true; } } return false; }
             case 3: { for (size_t t = 0; t < 8; t++) { Arr &A = arrays[r.u(arrays.size())]; if (A.a.dimensionCount() != A.shape.size()) continue; for (size_t d = 0; d < A.kinds.size(); d++) if (A.kinds[d] == 3) { DataFrame df = A.a.getDimension(d + 1).asDataFrameDimension().data(); c.op("breach frame-rows | dim " + str(d + 1) + " of " + str(A.kinds.size())); df.rows(df.rows() + 2); out.push_back({"frame-rows/dim" + str(d + 1) + "of" + str(A.kinds.size()), A.a.id(), true, false, nullptr}); return true; } } return false; }
@@ -81,10 +83,11 @@ struct Gen {
             case 6: {   // tag unit that cannot be converted, at a random dimension
                 for (size_t t = 0; t < 8; t++) { if (tags.empty() && mtags.empty()) return false; bool use_m = !mtags.empty() && (tags.empty() || r.chance(0.4));
                     std::vector<std::string> u = use_m ? mtags[r.u(mtags.size())].units() : std::vector<std::string>(); size_t which = 0;
-                    if (use_m) { MultiTag &mt = mtags[r.u(mtags.size())]; u = mt.units(); if (u.empty()) continue; which = r.u(u.size()); std::string base = u[which].substr(u[which].size() - 1); u[which] = base == "V" ? "ms" : "mV"; c.op("breach tag-unit-not-convertible multi_tag | unit " + str(which + 1) + " of " + str(u.size())); mt.units(u); out.push_back({"tag-unit/unit" + str(which + 1) + "of" + str(u.size()), mt.id(), true, false, nullptr}); return true; }
-                    Tag &tg = tags[r.u(tags.size())]; u = tg.units(); if (u.empty()) continue; which = r.u(u.size()); std::string base = u[which].substr(u[which].size() - 1); u[which] = base == "V" ? "ms" : "mV"; c.op("breach tag-unit-not-convertible tag | unit " + str(which + 1) + " of " + str(u.size())); tg.units(u); out.push_back({"tag-unit/unit" + str(which + 1) + "of" + str(u.size()), tg.id(), true, false, nullptr}); return true; }
+                    auto taken = [&](const std::string &id) { for (auto &o : out) if (o.entity_id == id) return true; return false; };
+                    if (use_m) { MultiTag &mt = mtags[r.u(mtags.size())]; if (taken(mt.id()) || !mt.positions()) continue; u = mt.units(); if (u.empty()) continue; which = r.u(u.size()); std::string base = u[which].substr(u[which].size() - 1); u[which] = base == "V" ? "ms" : "mV"; c.op("breach tag-unit-not-convertible multi_tag | unit " + str(which + 1) + " of " + str(u.size())); mt.units(u); out.push_back({"tag-unit/unit" + str(which + 1) + "of" + str(u.size()), mt.id(), true, false, nullptr}); return true; }
+                    Tag &tg = tags[r.u(tags.size())]; if (taken(tg.id())) continue; u = tg.units(); if (u.empty()) continue; which = r.u(u.size()); std::string base = u[which].substr(u[which].size() - 1); u[which] = base == "V" ? "ms" : "mV"; c.op("breach tag-unit-not-convertible tag | unit " + str(which + 1) + " of " + str(u.size())); tg.units(u); out.push_back({"tag-unit/unit" + str(which + 1) + "of" + str(u.size()), tg.id(), true, false, nullptr}); return true; }
                 return false; }
-            case 7: { if (mtags.empty()) return false; MultiTag &mt = mtags[r.u(mtags.size())]; DataArray p = mt.positions(); if (!p) return false; Block b; for (auto &x : f.blocks()) if (x.hasMultiTag(mt)) b = x; c.op("breach multi-tag-without-positions"); b.deleteDataArray(p); out.push_back({"multi-tag-without-positions", mt.id(), true, false, nullptr}); return true; }
+            case 7: { if (mtags.empty()) return false; MultiTag &mt = mtags[r.u(mtags.size())]; for (auto &o : out) if (o.entity_id == mt.id()) return false; DataArray p = mt.positions(); if (!p) return false; Block b; for (auto &x : f.blocks()) if (x.hasMultiTag(mt)) b = x; c.op("breach multi-tag-without-positions"); b.deleteDataArray(p); out.push_back({"multi-tag-without-positions", mt.id(), true, false, nullptr}); return true; }
             case 8: { for (auto &x : f.blocks()) for (auto &t : x.tags()) if (t.featureCount()) { Feature ft = t.getFeature(0); DataArray d = ft.data(); if (!d) continue; Block b = x; c.op("breach feature-without-data"); std::string fid = ft.id(); b.deleteDataArray(d); out.push_back({"feature-without-data", fid, true, false, nullptr}); return true; } return false; }
             }
         } else {
@@ -93,7 +96,7 @@ struct Gen {
             case 0: { Arr &A = arrays[r.u(arrays.size())]; if (A.a.dimensionCount() == 1 && A.kinds[0] == 1) return false; c.op("soft-breach array-unit-non-SI"); A.a.unit("arbitrary units"); out.push_back({"array-unit-non-SI", A.a.id(), false, false, nullptr}); return true; }
             case 1: { Arr &A = arrays[r.u(arrays.size())]; c.op("soft-breach coefficients-without-origin"); A.a.polynomCoefficients({1.0, 3.0}); A.a.expansionOrigin(nix::none); out.push_back({"coefficients-without-origin", A.a.id(), false, false, nullptr}); return true; }
             case 2: { Arr &A = arrays[r.u(arrays.size())]; c.op("soft-breach origin-without-coefficients"); A.a.polynomCoefficients(nix::none); A.a.expansionOrigin(2.0); out.push_back({"origin-without-coefficients", A.a.id(), false, false, nullptr}); return true; }
-            case 3: { for (size_t t = 0; t < 8; t++) { Arr &A = arrays[r.u(arrays.size())]; for (size_t d = 0; d < A.kinds.size(); d++) if (A.kinds[d] == 0 && d < (size_t)A.a.dimensionCount()) { bool used = false; for (auto &tg : tags) for (auto &ref : tg.references()) if (ref.id() == A.a.id() && !tg.units().empty()) used = true; for (auto &tg : mtags) for (auto &ref : tg.references()) if (ref.id() == A.a.id() && !tg.units().empty()) used = true; if (used) continue; SampledDimension sd = A.a.getDimension(d + 1).asSampledDimension(); c.op("soft-breach offset-without-unit"); sd.offset(1.0); sd.unit(nix::none); out.push_back({"offset-without-unit", "unknown", false, true, nullptr}); return true; } } return false; }
+            case 3: { for (size_t t = 0; t < 8; t++) { Arr &A = arrays[r.u(arrays.size())]; for (size_t d = 0; d < A.kinds.size(); d++) if (A.kinds[d] == 0 && d < (size_t)A.a.dimensionCount()) { bool used = false; for (auto &tg : tags) for (auto &ref : tg.references()) if (ref.id() == A.a.id()) used = true; for (auto &tg : mtags) for (auto &ref : tg.references()) if (ref.id() == A.a.id()) used = true; if (used) continue;   /* removing the unit of a referenced dimension would change what the tag-unit rule demands */ std::string key = "offset-without-unit:" + A.a.id() + "/" + str(d); bool dup = false; for (auto &o : out) if (o.name == key) dup = true; if (dup) continue; SampledDimension sd = A.a.getDimension(d + 1).asSampledDimension(); c.op("soft-breach offset-without-unit"); sd.offset(1.0); sd.unit(nix::none); out.push_back({key, "unknown", false, true, nullptr}); return true; } } return false; }
             case 4: { for (auto &s : f.sections()) for (auto &p : s.properties()) { Property q = p; c.op("soft-breach property-values-without-unit"); q.unit(nix::none); out.push_back({"property-values-without-unit", q.id(), false, false, nullptr}); return true; } return false; }
             }
         }
@@ -113,8 +116,8 @@ void run_case(Ctx &c) {
     // and after a reopen
     int mode = (int)r.u(3);   // 0: hard breaches (1-3), 1: soft breaches only, 2: none (reopen check)
     std::vector<Breach> B;
-    if (mode == 0) { int n = 1 + (int)r.u(3); for (int i = 0; i < n * 3 && (int)B.size() < n; i++) g.breach(true, B); if (r.chance(0.3)) g.breach(false, B); }
-    else if (mode == 1) { int n = 1 + (int)r.u(2); for (int i = 0; i < n * 3 && (int)B.size() < n; i++) g.breach(false, B); }
+    if (mode == 0) { int n = 1 + (int)r.u(3); for (int i = 0; i < n * 3 && (int)B.size() < n; i++) { try { g.breach(true, B); } catch (std::exception &) { c.count("breach_not_applicable"); } } if (r.chance(0.3)) { try { g.breach(false, B); } catch (std::exception &) {} } }
+    else if (mode == 1) { int n = 1 + (int)r.u(2); for (int i = 0; i < n * 3 && (int)B.size() < n; i++) { try { g.breach(false, B); } catch (std::exception &) { c.count("breach_not_applicable"); } } }
     for (auto &b : B) c.fp(b.name.substr(0, b.name.find(':')));
     c.fp("m" + str(mode));
     g.arrays.clear(); g.tags.clear(); g.mtags.clear(); g.f.close();
